@@ -10,9 +10,9 @@ Directives.vos Directives.vok Directives.required_vos: Directives.v Ast.vos
 Erase.vo Erase.glob Erase.v.beautified Erase.required_vo: Erase.v Ast.vo Generated.vo HookSites.vo Directives.vo
 Erase.vio: Erase.v Ast.vio Generated.vio HookSites.vio Directives.vio
 Erase.vos Erase.vok Erase.required_vos: Erase.v Ast.vos Generated.vos HookSites.vos Directives.vos
-Extract.vo Extract.glob Extract.v.beautified Extract.required_vo: Extract.v Ast.vo Generated.vo Config.vo ToConfig.vo Model.vo HookSites.vo Known.vo Directives.vo Erase.vo Sites.vo Hygiene.vo Shapes.vo
-Extract.vio: Extract.v Ast.vio Generated.vio Config.vio ToConfig.vio Model.vio HookSites.vio Known.vio Directives.vio Erase.vio Sites.vio Hygiene.vio Shapes.vio
-Extract.vos Extract.vok Extract.required_vos: Extract.v Ast.vos Generated.vos Config.vos ToConfig.vos Model.vos HookSites.vos Known.vos Directives.vos Erase.vos Sites.vos Hygiene.vos Shapes.vos
+Extract.vo Extract.glob Extract.v.beautified Extract.required_vo: Extract.v Ast.vo Generated.vo Config.vo ToConfig.vo SrcMap.vo Model.vo HookSites.vo Known.vo Directives.vo Erase.vo Sites.vo Hygiene.vo Shapes.vo
+Extract.vio: Extract.v Ast.vio Generated.vio Config.vio ToConfig.vio SrcMap.vio Model.vio HookSites.vio Known.vio Directives.vio Erase.vio Sites.vio Hygiene.vio Shapes.vio
+Extract.vos Extract.vok Extract.required_vos: Extract.v Ast.vos Generated.vos Config.vos ToConfig.vos SrcMap.vos Model.vos HookSites.vos Known.vos Directives.vos Erase.vos Sites.vos Hygiene.vos Shapes.vos
 Generated.vo Generated.glob Generated.v.beautified Generated.required_vo: Generated.v 
 Generated.vio: Generated.v 
 Generated.vos Generated.vok Generated.required_vos: Generated.v 
@@ -91,6 +91,9 @@ Properties/C06.vos Properties/C06.vok Properties/C06.required_vos: Properties/C0
 Properties/C07.vo Properties/C07.glob Properties/C07.v.beautified Properties/C07.required_vo: Properties/C07.v Ast.vo Generated.vo Config.vo Model.vo Directives.vo P_Directives.vo
 Properties/C07.vio: Properties/C07.v Ast.vio Generated.vio Config.vio Model.vio Directives.vio P_Directives.vio
 Properties/C07.vos Properties/C07.vok Properties/C07.required_vos: Properties/C07.v Ast.vos Generated.vos Config.vos Model.vos Directives.vos P_Directives.vos
+Properties/C09.vo Properties/C09.glob Properties/C09.v.beautified Properties/C09.required_vo: Properties/C09.v SrcMap.vo P_SrcMap.vo
+Properties/C09.vio: Properties/C09.v SrcMap.vio P_SrcMap.vio
+Properties/C09.vos Properties/C09.vok Properties/C09.required_vos: Properties/C09.v SrcMap.vos P_SrcMap.vos
 Properties/C12.vo Properties/C12.glob Properties/C12.v.beautified Properties/C12.required_vo: Properties/C12.v Ast.vo Generated.vo Config.vo Model.vo P_Program.vo P_Inert.vo P_Telemetry.vo
 Properties/C12.vio: Properties/C12.v Ast.vio Generated.vio Config.vio Model.vio P_Program.vio P_Inert.vio P_Telemetry.vio
 Properties/C12.vos Properties/C12.vok Properties/C12.required_vos: Properties/C12.v Ast.vos Generated.vos Config.vos Model.vos P_Program.vos P_Inert.vos P_Telemetry.vos
